@@ -307,6 +307,12 @@ def generate(seed, tier="quick"):
             follow_op = _gen_op(rnd, rc, hints, fcs, package_kinds, flavour)
             if not follow_op.get("drop") and not request["op"].get("drop"):
                 request["follow_ups"] = [{"op": follow_op, "cer": follow_cer, "peer_set": request.get("peer_set", 0)}]
+    for request in requests:
+        if request["op"]["op"] == "valid" and not request.get("follow_ups") and rnd.random() < 0.5:
+            # after the validity check the task goes on evaluating with ITS OWN data, which it does not set again
+            follow_op = _gen_op(rnd, rc, hints, fcs, package_kinds, flavour)
+            if not follow_op.get("drop") and follow_op["op"] != "valid":
+                request["follow_ups"] = [{"op": follow_op, "cer": None, "peer_set": request.get("peer_set", 0)}]
     if n_requests >= 2 and rnd.random() < 0.12:
         # result objects must not be shared between evaluations: one evaluation is won by a trailing bare modal mark
         # (all conditional parts unfulfilled), others evaluate bare indicators - before, after or at the same time
@@ -369,7 +375,7 @@ def _direct_clause(request, outcome, world):
         if pairs is None or sorted(p[0] for p in pairs) != expected_keys:
             return f"get_hints({op['keys']}) returned keys {pairs}"
         for key, value in pairs:
-            if value.get("hint") != f"H{key}@{rid.split('+')[0]}" or value.get("condition_key") != key:
+            if value.get("hint") != cer["hints"][key] or value.get("condition_key") != key:
                 return f"get_hints: key {key} paired with {value}"
     if op["op"] == "fc_direct":
         pairs = result.get("!dict") if isinstance(result, dict) else None
@@ -399,7 +405,8 @@ def _flatten(scenario):
     for request in scenario["requests"]:
         flat.append({k: v for k, v in request.items() if k != "follow_ups"})
         for number, follow_up in enumerate(request.get("follow_ups") or [], 1):
-            flat.append(dict(follow_up, rid=f"{request['rid']}+{number}", fault=request.get("fault")))
+            flat.append(dict(follow_up, rid=f"{request['rid']}+{number}", fault=request.get("fault"),
+                             cer=follow_up.get("cer") or request["cer"]))
     return flat
 
 
